@@ -46,7 +46,7 @@ func NoSuppressedNotified(t *Truth) *Report {
 				rep.violate("no-suppressed-notified", "silenced-alert-notified", map[string]any{"attempt": describe(r, a), "alert": al.Labels.Key(),
 					"silences": r.Sils.ActiveMatching(al.Labels, a.Tick, true)})
 			}
-			if inh && !al.Resolved {
+			if inh {
 				sure, _ := t.firingSets(a.Tick)
 				rep.violate("no-suppressed-notified", "inhibited-alert-notified", map[string]any{"attempt": describe(r, a), "alert": al.Labels.Key(),
 					"inhibited_by": model.InhibitedBy(ep.Config.Inhibit, sure, al.Labels)})
